@@ -369,9 +369,16 @@ func filterMerge(ctx stick.Context, val stick.Value, args ...stick.Value) stick.
 		return nil
 	}
 
-	outMap, isObject := val.(map[string]stick.Value)
+	inMap, isObject := val.(map[string]stick.Value)
 
 	if isObject {
+		// The result is a new map: the operand (which may be nil, and may be
+		// shared with other templates or goroutines) is left untouched.
+		outMap := make(map[string]stick.Value, len(inMap))
+		for k, v := range inMap {
+			outMap[k] = v
+		}
+
 		argMap, ok := args[0].(map[string]stick.Value)
 
 		if ok {
